@@ -42,6 +42,11 @@ class Env:
             return st_, Ptr(p.r, p.o + a[1])
         ex.intercepts['@_ZNSt7__cxx1112basic_stringIcSt11char_traitsIcESaIcEEixEm'] = index
         ex.intercepts[PFX + 'ixEm'] = index
+        NPFX = '@_ZNSt7__cxx1112basic_stringIcSt11char_traitsIcESaIcEE'
+        data = lambda e, st_, a: (st_, e.load(st_, a[0], 8))
+        for nm in (PFX + '4dataEv', NPFX + '4dataEv', PFX + '5c_strEv', PFX + '5beginEv', NPFX + '5beginEv', PFX + '6cbeginEv'):
+            ex.intercepts[nm] = data
+        ex.intercepts[PFX + '5emptyEv'] = lambda e, st_, a: (st_, z3.If(e.load(st_, Ptr(a[0].r, a[0].o + 8), 8) == 0, z3.BitVecVal(1, 1), z3.BitVecVal(0, 1)))
         ex.intercepts['@_ZNSt7__cxx1112basic_stringIcSt11char_traitsIcESaIcEED2Ev'] = lambda e, st_, a: (st_, None)
         ex.intercepts['@_ZNSt7__cxx1112basic_stringIcSt11char_traitsIcESaIcEED1Ev'] = lambda e, st_, a: (st_, None)
         return ex, st, L, chars
